@@ -7,6 +7,7 @@
 import Proofs.Lemmas.Cycles
 import Proofs.Lemmas.CyclesIdx
 import Proofs.Lemmas.CyclesSlices
+import Proofs.Lemmas.CyclesStep
 
 namespace C12
 open Cycles
@@ -205,6 +206,97 @@ theorem getCycleVector_all_cover (g : GoodCfg) (step : Rat) (ph : List Rat)
   rw [getCycleVector_nomask, ← code_model_refines]
   exact code_model_all_cover _ ph hw
 
+/-! ## `phase_step`: every value is a threshold and is used as given ("all phase_step values")
+
+`getCycleVectorOpt g dflt step?` is `get_cycle_vector` with the `phase_step` argument as the caller wrote it
+(`none` = omitted).  The theorems above are generic in the wrap predicate; the ones below instantiate them at
+the public entry point for EVERY value of the argument — 0 and 0.0 (the lower end of the range: every change
+of phase is a wrap), negative values (every neighbour pair is a wrap), values nothing exceeds (no wrap) — and
+say that an explicit value is never replaced by the default (seeded change C12-5: `phase_step or DEFAULT`). -/
+
+/-- An explicit `phase_step` — whatever its value, 0 included — is the threshold: the result is that of the
+    detector run with exactly this number and does not depend on what the default is.  The default applies
+    when (and only when) the argument is omitted. -/
+theorem explicit_step_used_as_given (g : GoodCfg) (dflt dflt' s : Rat) (good : Bool) (ph : List Rat)
+    (mask : List Bool) :
+    getCycleVectorOpt g dflt (some s) good ph mask = getCycleVector g s good ph mask ∧
+    getCycleVectorOpt g dflt (some s) good ph mask = getCycleVectorOpt g dflt' (some s) good ph mask ∧
+    getCycleVectorOpt g dflt none good ph mask = getCycleVector g dflt good ph mask := ⟨rfl, rfl, rfl⟩
+
+/-- **The partition theorems at the public entry point, for every `phase_step` argument** (omitted, 0,
+    negative, huge — `step?` ranges over all of `Option Rat`) and every default: the label vector is the
+    painted labelled partition for the threshold `resolveStep dflt step?`; the runs concatenate to the
+    input, none is empty, none contains a pair of neighbours farther apart than the threshold, consecutive
+    runs are separated by such a pair, the labels are 0..K-1 in temporal order, there is one label per
+    sample, and the code-shaped model (what the driver runs) computes the same vector. -/
+theorem partition_every_step (g : GoodCfg) (dflt : Rat) (step? : Option Rat) (good : Bool) (ph : List Rat)
+    (mask : List Bool) :
+    let step := resolveStep dflt step?
+    let segs := cvSegs (wrapP step) (accept g good) (ph.zip mask)
+    getCycleVectorOpt g dflt step? good ph mask = paint segs ∧
+    (segs.map (·.1)).flatten = ph.zip mask ∧
+    (∀ s ∈ segs, s.1 ≠ [] ∧ NoWrap (wrapP step) s.1) ∧
+    WrapBetween (wrapP step) (segs.map (·.1)) ∧
+    segs.filterMap (·.2) = List.range (nCycles segs) ∧
+    (getCycleVectorOpt g dflt step? good ph mask).length = (ph.zip mask).length ∧
+    getCycleVectorOpt g dflt step? good ph mask = cvIdx (wrapP step) (accept g good) (ph.zip mask) := by
+  intro step segs
+  exact ⟨rfl, segs_partition _ _ _, fun s hs => ⟨segs_nonempty _ _ _ s hs, segs_no_internal_wrap _ _ _ s hs⟩,
+    segs_boundaries_are_wraps _ _ _, labels_sequential _ _ _, cv_length _ _ _, (code_model_refines _ _ _).symm⟩
+
+/-- `phase_step = 0` (explicit, whatever the default): a pair of neighbours is a wrap exactly when the two
+    phases DIFFER.  So the runs of the partition are the maximal runs of equal phase: inside a run all
+    phases are equal, and the last phase of a run differs from the first phase of the next. -/
+theorem step_zero_partition (g : GoodCfg) (dflt : Rat) (good : Bool) (ph : List Rat) (mask : List Bool) :
+    (∀ a b : Rat, wrapAt 0 a b = true ↔ a ≠ b) ∧
+    getCycleVectorOpt g dflt (some 0) good ph mask = paint (cvSegs (wrapP 0) (accept g good) (ph.zip mask)) ∧
+    (∀ s ∈ cvSegs (wrapP 0) (accept g good) (ph.zip mask), ∀ x ∈ s.1, ∀ y ∈ s.1, x.1 = y.1) ∧
+    WrapBetween (fun a b : Rat × Bool => decide (a.1 ≠ b.1))
+      ((cvSegs (wrapP 0) (accept g good) (ph.zip mask)).map (·.1)) := by
+  have hw : wrapP 0 = fun a b : Rat × Bool => decide (a.1 ≠ b.1) := by
+    funext a b
+    rw [Bool.eq_iff_iff, decide_eq_true_eq]
+    exact wrapAt_zero_iff a.1 b.1
+  refine ⟨wrapAt_zero_iff, rfl, ?_, ?_⟩
+  · intro s hs
+    apply noWrap_const (wrapP 0) (·.1) _ s.1 (segs_no_internal_wrap _ _ _ s hs)
+    intro a b hab
+    apply Classical.byContradiction
+    intro hne
+    have := (wrapAt_zero_iff a.1 b.1).mpr hne
+    unfold wrapP at hab
+    rw [hab] at this; cases this
+  · have := segs_boundaries_are_wraps (wrapP 0) (accept g good) (ph.zip mask)
+    rw [hw] at this ⊢; exact this
+
+/-- A NEGATIVE `phase_step` (|Δphase| ≥ 0 exceeds it always): every neighbour pair is a wrap, every sample
+    is a cycle of its own — with all cycles requested, no mask and at least two samples the labels are
+    0, 1, …, n-1. -/
+theorem step_negative_every_sample_a_cycle (g : GoodCfg) (dflt s : Rat) (hs : s < 0) (ph : List Rat)
+    (hn : 2 ≤ ph.length) :
+    getCycleVectorOpt g dflt (some s) false ph (List.replicate ph.length true) =
+      (List.range ph.length).map fun (k : Nat) => (k : Int) := by
+  show getCycleVector g s false ph (List.replicate ph.length true) = _
+  rw [getCycleVector_nomask]
+  simp only [Bool.not_false, Bool.true_or]
+  unfold cvSegs
+  simp only []
+  rw [runsBy_all_wrap (wrapAt s) (wrapAt_of_neg s hs) ph]
+  rw [if_neg (by simp; omega), paint_labelRuns_singletons, List.range_eq_range']
+
+/-- A `phase_step` that no phase difference of the series exceeds (all phases within `[lo, hi]`,
+    `hi - lo ≤ phase_step`; e.g. `2π` or 7 for wrapped phases): no wrap, hence no cycle — every label is -1,
+    whichever cycles are requested, with or without mask. -/
+theorem step_not_exceeded_no_cycles (g : GoodCfg) (dflt s lo hi : Rat) (h : hi - lo ≤ s) (good : Bool)
+    (ph : List Rat) (mask : List Bool) (hb : ∀ a ∈ ph, lo ≤ a ∧ a ≤ hi) :
+    ∀ l ∈ getCycleVectorOpt g dflt (some s) good ph mask, l = -1 := by
+  show ∀ l ∈ paint (cvSegs (wrapP s) (accept g good) (ph.zip mask)), l = -1
+  rw [← code_model_refines]
+  apply code_model_no_wrap
+  apply wrapIdx_nil_of_no_wrap
+  intro a ha b hb'
+  exact wrapAt_false_of_bounds s lo hi h a.1 b.1 (hb _ (List.of_mem_zip ha).1) (hb _ (List.of_mem_zip hb').1)
+
 /-! Non-vacuity: a concrete series with two wraps, three cycles, all hypotheses met
     (integer samples; the theorems are generic in the sample type). -/
 def wInt (a b : Int) : Bool := decide (4 < (b - a).natAbs)
@@ -216,5 +308,14 @@ example : (2 : Nat) < nCycles (cvSegs wInt (fun _ => true) [1, 3, 6, 0, 2, 6, 1,
 example : wrapIdx wInt [9, 1, 2, 3, 9] 0 = [1, 4] := by decide
 example : segSlices [9, 1, 2, 3, 9] (0 :: wrapIdx wInt [9, 1, 2, 3, 9] 0 ++ [5]) = [[9], [1, 2, 3], [9]] := by decide
 example := code_model_slices_nonempty wInt [9, 1, 2, 3, 9] (by decide)
+
+-- phase_step = 0 on the round-3 witness (repeated values, small changes): cycles at every change of phase, although the
+-- default threshold 3/2·π ≈ 4.71 sees a single wrap; a negative step labels every sample
+example : getCycleVectorOpt { edge := 1/4, twopi := 6, endlo := 23/4 } (471/100) (some 0) false
+    [1/2, 1/2, 1, 1, 1, 5/2, 5/2, 6, 1/5, 1/5] (List.replicate 10 true) = [0, 0, 1, 1, 1, 2, 2, 3, 4, 4] := by decide +kernel
+example : getCycleVectorOpt { edge := 1/4, twopi := 6, endlo := 23/4 } (471/100) none false
+    [1/2, 1/2, 1, 1, 1, 5/2, 5/2, 6, 1/5, 1/5] (List.replicate 10 true) = [0, 0, 0, 0, 0, 0, 0, 0, 1, 1] := by decide +kernel
+example : getCycleVectorOpt { edge := 1/4, twopi := 6, endlo := 23/4 } (471/100) (some (-1)) false
+    [1/2, 1/2, 1] (List.replicate 3 true) = [0, 1, 2] := by decide +kernel
 
 end C12
